@@ -169,6 +169,15 @@ def follower_test(ctx, prog, rule):
                     consts.update({9, 32})
                 elif name == 'strlen':
                     continue
+                elif name in ('strchr', 'index', 'memchr') and 1 in fa and strip(n.ch[1]).k == 'StringLiteral':
+                    # strchr(SET, follower): accepted when the follower is one of SET's characters - or the terminator of
+                    # SET, which strchr finds as well
+                    lit = strip(n.ch[1]).get('s') or ''
+                    import re as _re
+                    lit = _re.sub(r'\\x([0-9a-fA-F]{2})', lambda m_: chr(int(m_.group(1), 16)), lit).replace('\\\\', '\\')
+                    consts.update(ord(ch_) for ch_ in lit)
+                    if name != 'memchr':
+                        consts.add(0)
                 else:
                     t = prog.func(name, func.tu) if name else None
                     if t is not None and depth < 2:
@@ -194,7 +203,7 @@ def follower_test(ctx, prog, rule):
     # start-of-line test: content start or preceded by '\n'
     prev = set()
     for n in FE.body.walk():
-        if n.k == 'BinaryOperator' and n['op'] == '==':
+        if n.k == 'BinaryOperator' and n['op'] in ('==', '!='):     # `p[-1] != LF -> not this one` is the same test
             for x, y in ((n.ch[0], n.ch[1]), (n.ch[1], n.ch[0])):
                 sx = strip(x)
                 if sx.k == 'ArraySubscriptExpr' and strip(sx.ch[1]).get('v') == -1 and 'v' in strip(y).d:
